@@ -6,9 +6,12 @@
 -/
 import PygModel.Tree
 import PygProofs.Lemmas.TreeLemmas
+import PygProofs.Lemmas.TreeMerge
+import PygProofs.Lemmas.TreeHeapLemmas
+import PygProofs.Lemmas.TreeHeapAbs
 
 namespace Pyg.Props.C15
-open Pyg Pyg.Tree Pyg.DA
+open Pyg Pyg.Tree Pyg.DA Pyg.TreeHeap
 
 /-- `tree_keys` and `tree_values` are the paths and the leaves of `tree_items`, in the same order -/
 theorem keys_values_of_items (t : Val) :
@@ -41,87 +44,226 @@ theorem update_empty (kvs : List (String × Val)) (ig : List Val) :
     update (.dict kvs) (.dict []) ig = .ok (.dict kvs) := by
   simp [update, items, itemsKVs, itemsToTree, Except.map, pure, Except.pure]
 
-/-- PARTIAL (`items_to_tree(tree_items(t)) == t`): proved for trees of depth one (every value a
-leaf, distinct keys).  Not proved: arbitrary depth (needs: folding the items of a non-empty subtree
-hung on a fresh key appends exactly that subtree).  The general statement is checked by
-correspondence (op `fromitems` against `items`) and by the round-trip law on the implementation. -/
-theorem items_roundtrip_partial (kvs : List (String × Val)) (hn : (kvs.map (·.1)).Nodup)
-    (hl : ∀ kv ∈ kvs, ∀ s, kv.2 ≠ .dict s) :
-    itemsToTree (items (.dict kvs)) [] [] = .ok kvs := by
-  have hi : itemsKVs kvs = kvs.map fun kv => ([kv.1], kv.2) := by
-    induction kvs with
-    | nil => rfl
-    | cons kv kvs ih =>
-      obtain ⟨k, v⟩ := kv
-      simp only [List.map_cons, List.nodup_cons] at hn
-      have hv : ∀ s, v ≠ .dict s := hl (k, v) (by simp)
-      have : items v = [([], v)] := by
-        cases v with
-        | dict s => exact absurd rfl (hv s)
-        | _ => rfl
-      simp only [itemsKVs, this, List.map_cons, List.map_nil, List.singleton_append]
-      rw [ih hn.2 fun kv h => hl kv (by simp [h])]
-  have hp : ((itemsKVs kvs).map (·.1)).Nodup := by
-    rw [hi, List.map_map]
-    have : ((fun (x : Path × Val) => x.1) ∘ fun (kv : String × Val) => ([kv.1], kv.2)) =
-        (fun s => [s]) ∘ (fun kv : String × Val => kv.1) := rfl
-    rw [this, ← List.map_map]
-    exact List.Pairwise.map (fun s => [s]) (fun a b h => by simpa using h) hn
-  have he : (itemsKVs kvs).any (·.1.isEmpty) = false := by
-    rw [hi]; simp [List.any_eq_false]
-  simp only [itemsToTree, items, hp, not_true_eq_false, if_false, he, Bool.false_eq_true]
-  rw [hi, foldl_setKVs_flat, setAll_nil_of_nodup kvs hn]
+/-- `items_to_tree(tree_items(t)) == t` for EVERY tree (a dict) with distinct keys in every branch
+and no empty branch below the root, at any depth — whatever the `ignore` list. -/
+theorem items_roundtrip (kvs : List (String × Val)) (ig : List Val)
+    (hw : wf (.dict kvs) = true) (hn : noEmpty (.dict kvs) = true) :
+    itemsToTree (items (.dict kvs)) [] ig = .ok kvs := by
+  rw [itemsToTree_items ig [] kvs hw hn]
+  simp only [wf, Bool.and_eq_true, decide_eq_true_eq] at hw
+  rw [mergeKVs_fresh ig kvs hw.2 [] (by simpa using hw.1)]
   rfl
 
-/-- PARTIAL (`tree_update` = recursive merge): proved for a one-leaf update `{k: v}` — `u`'s leaf
-overrides unless ignored, everything else of `t` is kept (`update_leaf_other`).  Not proved: the
-general equation `update t u ig = merge ig t u` for `wf` trees and `u` without empty branches, and
-its corollary `tree_update(t, t) == t`; both are checked on every run against the executable
-`merge` (driver op `merge`) by the harness's reference merge and by the idempotence law. -/
-theorem update_is_merge_partial (kvs : List (String × Val)) (k : String) (v : Val) (ig : List Val)
+/-- the tree must be a dict: a bare leaf flattens to the keyless item `(leaf,)`, which
+`items_to_tree` rejects (`ValueError`, as the code) -/
+theorem items_roundtrip_leaf (v : Val) (hv : ∀ s, v ≠ .dict s) (base : List (String × Val)) (ig : List Val) :
+    itemsToTree (items v) base ig = .error Err.value := by
+  simp [items_leaf v hv, itemsToTree, throw, throwThe, MonadExceptOf.throw]
+
+/-- the hypothesis "no empty branch" is needed: an empty branch has no items and is lost -/
+theorem items_roundtrip_empty_branch_false :
+    itemsToTree (items (.dict [("a", .dict [])])) [] [] = .ok [] := by rfl
+
+/-- `tree_update(t, u) ==` the recursive merge (`u`'s leaves override unless ignored, branches on
+both sides are merged, leaf-vs-branch conflicts go to `u`, the rest of `t` is kept), for EVERY dict
+`t` (no hypothesis at all on `t`) and EVERY dict `u` with distinct keys and no empty branch. -/
+theorem update_is_merge (a b : List (String × Val)) (ig : List Val)
+    (hw : wf (.dict b) = true) (hn : noEmpty (.dict b) = true) :
+    update (.dict a) (.dict b) ig = .ok (merge ig (.dict a) (.dict b)) := by
+  simp only [update, itemsToTree_items ig a b hw hn, merge]
+  rfl
+
+/-- what the merge is, key by key (this pins the executable specification `merge` down): a key of
+`u` holds `u`'s value merged into what `t` had there (`mergeAt`: a leaf of `u` overrides unless
+ignored and the key existed; a branch of `u` is merged into `t`'s branch, or replaces `t`'s leaf,
+or is hung as it is on a new key), every other key keeps `t`'s value. -/
+theorem merge_lookup (ig : List Val) (k : String) : ∀ (b a : List (String × Val)),
+    (b.map (·.1)).Nodup →
+    lookup k (mergeKVs ig a b) =
+      match lookup k b with
+      | some v => some (mergeAt ig k a v)
+      | none => lookup k a
+  | [], a, _ => by simp [mergeKVs, lookup]
+  | (k', v) :: b, a, hn => by
+      simp only [List.map_cons, List.nodup_cons] at hn
+      rw [mergeKVs_cons, merge_lookup ig k b _ hn.2]
+      by_cases e : k = k'
+      · subst e
+        simp [lookup, lookup_eq_none k b hn.1, lookup_set]
+      · simp only [lookup, if_neg e]
+        cases lookup k b with
+        | none => simp [lookup_set, e]
+        | some w => simp [mergeAt, lookup_set, e]
+
+theorem mergeAt_leaf (ig : List Val) (k : String) (a : List (String × Val)) (v : Val)
+    (hv : ∀ s, v ≠ .dict s) :
+    mergeAt ig k a v = match lookup k a with
+      | some old => if ig.contains v then old else v
+      | none => v := by
+  simp only [mergeAt]
+  cases lookup k a with
+  | none => exact mergeNew_leaf ig v hv
+  | some old => exact merge_leaf ig old v hv
+
+theorem mergeAt_branch (ig : List Val) (k : String) (a s : List (String × Val)) :
+    mergeAt ig k a (.dict s) = .dict (mergeKVs ig (subOf k a) s) := by
+  simp only [mergeAt, subOf]
+  cases lookup k a with
+  | none => rfl
+  | some old => cases old <;> rfl
+
+/-- `tree_update(t, t) == t` (any ignore list) -/
+theorem update_idem (a : List (String × Val)) (ig : List Val)
+    (hw : wf (.dict a) = true) (hn : noEmpty (.dict a) = true) :
+    update (.dict a) (.dict a) ig = .ok (.dict a) := by
+  rw [update_is_merge a a ig hw hn, merge_self ig _ hw]
+
+/-- the one-leaf case of `update_is_merge` (former `update_is_merge_partial`) -/
+theorem update_one_leaf (kvs : List (String × Val)) (k : String) (v : Val) (ig : List Val)
     (hv : ∀ s, v ≠ .dict s) :
     update (.dict kvs) (.dict [(k, v)]) ig = .ok (merge ig (.dict kvs) (.dict [(k, v)])) := by
-  have : items v = [([], v)] := by
-    cases v with
+  apply update_is_merge
+  · cases v with
     | dict s => exact absurd rfl (hv s)
-    | _ => rfl
-  simp only [update, items, itemsKVs, this, List.map_cons, List.map_nil, List.append_nil,
-    itemsToTree, List.nodup_cons, List.not_mem_nil, not_false_eq_true, List.nodup_nil, and_self,
-    not_true_eq_false, if_false, List.any_cons, List.isEmpty_cons, List.any_nil, Bool.or_self,
-    Bool.false_eq_true, List.foldl_cons, List.foldl_nil, Except.map, pure, Except.pure, merge, mergeKVs]
-  congr 2
-  cases hl : lookup k kvs with
-  | none =>
-    have : mergeNew ig v = v := by
-      cases v with
-      | dict s => exact absurd rfl (hv s)
-      | _ => rfl
-    simp [setKVs, hl, this]
-  | some old =>
-    have hm : merge ig old v = if ig.contains v then old else v := by
-      cases v with
-      | dict s => exact absurd rfl (hv s)
-      | _ => cases old <;> rfl
-    simp only [setKVs, hl, Option.isSome_some, Bool.true_and, hm]
-    -- re-assigning the old value changes nothing
-    have hset : ∀ (l : List (String × Val)), lookup k l = some old → DA.set k old l = l := by
-      intro l
-      induction l with
-      | nil => simp [lookup]
-      | cons x xs ih =>
-        obtain ⟨a, b⟩ := x
-        simp only [lookup, DA.set]
-        by_cases e : k = a
-        · rw [if_pos e, if_pos e]; intro h; cases h; rfl
-        · rw [if_neg e, if_neg e]; intro h; rw [ih h]
-    by_cases hi : ig.contains v = true
-    · rw [if_pos hi, if_pos hi]; exact (hset kvs hl).symm
-    · rw [if_neg hi, if_neg hi]
+    | _ => simp [wf, wfKVs]
+  · cases v with
+    | dict s => exact absurd rfl (hv s)
+    | _ => simp [noEmpty, noEmptyKVs]
 
 /-- the rest of `t` is kept by a one-leaf update -/
 theorem update_leaf_other (kvs : List (String × Val)) (k j : String) (v : Val) (ig : List Val)
     (hj : j ≠ k) : lookup j (setKVs kvs [k] v ig) = lookup j kvs :=
   lookup_setKVs_other [k] kvs v ig j (by simp [Ne.symm hj])
+
+/-! ### the heap model: "neither t nor u is modified at any depth" -/
+
+/-- `update_frame`: in the heap model of the REPAIRED `tree_update` (dict nodes in a heap, `copy`,
+`base()`, item assignments; PygModel/TreeHeap.lean), for ANY heap (sharing, cycles, dangling addresses
+allowed), any addresses `t`, `u` and any fuel: if the call returns, every item assignment it made
+targets a node allocated during the call, so every node that existed before the call — in particular
+every node reachable from `t` or `u`, at any depth — is unchanged; the result is a new node. -/
+theorem update_frame (f : Nat) (m : Mem) (t u : Nat) (ig : List Val) (m' : Mem) (r : Nat)
+    (h : treeUpdateH f m t u ig = .ok (m', r)) :
+    (∃ writes, m'.log = writes ++ m.log ∧ ∀ a ∈ writes, m.heap.length ≤ a) ∧
+    (∀ a, a < m.heap.length → m'.heap[a]? = m.heap[a]?) ∧ r = m.heap.length := by
+  simp only [treeUpdateH] at h
+  split at h
+  · cases h
+  · next its _ =>
+    obtain ⟨hr, hs, _⟩ := itemsToTreeH_safe f m its t ig m' r h
+    exact ⟨hs.log, hs.same, hr⟩
+
+/-- hence both operands read back as the same trees after the call -/
+theorem update_operands_unchanged (f : Nat) (m : Mem) (t u : Nat) (ig : List Val) (m' : Mem) (r : Nat)
+    (h : treeUpdateH f m t u ig = .ok (m', r)) (g : Nat) (x : Ref) (v : Val)
+    (hx : readH m.heap g x = some v) : readH m'.heap g x = some v := by
+  simp only [treeUpdateH] at h
+  split at h
+  · cases h
+  · next its _ =>
+    exact (itemsToTreeH_safe f m its t ig m' r h).2.1.readH (Nat.le_refl _) g x v hx
+
+/-- the heap model refines the pure model: if `t` and `u` represent the pure trees `tv` (distinct
+keys) and `uv` in the heap (`Own false`: sharing between branches allowed), the fuel covers their
+depths, and the pure `tree_update` returns `w`, then the heap `tree_update` returns a new node that
+represents `w` in tree shape — and reading that node back (`readH`) gives exactly `w`. -/
+theorem update_abstraction (f : Nat) (m : Mem) (t u : Nat) (ig : List Val) (tv uv w : Val)
+    (fpt fpu : List Nat) (ht : Own false m.heap tv (.ptr t) fpt) (hu : Own false m.heap uv (.ptr u) fpu)
+    (hwt : wf tv = true) (hdt : depth tv ≤ f) (hdu : depth uv ≤ f)
+    (hup : update tv uv ig = .ok w) :
+    ∃ m' fp, treeUpdateH f m t u ig = .ok (m', m.heap.length) ∧
+      Own true m'.heap w (.ptr m.heap.length) fp ∧
+      ∀ g, depth w ≤ g → readH m'.heap g (.ptr m.heap.length) = some w := by
+  obtain ⟨a, rfl⟩ := Own_ptr_dict ht
+  simp only [update, itemsToTree] at hup
+  split at hup
+  · cases hup
+  · next hnd =>
+    split at hup
+    · cases hup
+    · next hne =>
+      simp only [pure, Except.pure, Except.map, Except.ok.injEq] at hup
+      subst hup
+      obtain ⟨m1, fp1, hcopy, hown1, _⟩ := copyH_abs (.dict a) f m t fpt ht hdt hwt
+      obtain ⟨fp2, hown2⟩ := setItemsH_abs ig m.heap.length (items uv) (items_snd_leaf uv) m1 a fp1 hown1
+      refine ⟨setItemsH m1 m.heap.length (items uv) ig, fp2, ?_, hown2, fun g hg => readH_of_Own _ _ fp2 g hown2 hg⟩
+      simp only [treeUpdateH, itemsH_of_Own uv (.ptr u) fpu f hu hdu, itemsToTreeH, hnd, hne, hcopy]
+      rfl
+
+/-- with `update_is_merge`: on the heap, `tree_update` builds the recursive merge in new nodes -/
+theorem update_heap_is_merge (f : Nat) (m : Mem) (t u : Nat) (ig : List Val) (a b : List (String × Val))
+    (fpt fpu : List Nat) (ht : Own false m.heap (.dict a) (.ptr t) fpt)
+    (hu : Own false m.heap (.dict b) (.ptr u) fpu)
+    (hwt : wf (.dict a) = true) (hwu : wf (.dict b) = true) (hnu : noEmpty (.dict b) = true)
+    (hdt : depth (.dict a) ≤ f) (hdu : depth (.dict b) ≤ f) :
+    ∃ m', treeUpdateH f m t u ig = .ok (m', m.heap.length) ∧
+      ∀ g, depth (merge ig (.dict a) (.dict b)) ≤ g →
+        readH m'.heap g (.ptr m.heap.length) = some (merge ig (.dict a) (.dict b)) := by
+  obtain ⟨m', _, h1, _, h3⟩ := update_abstraction f m t u ig _ _ _ fpt fpu ht hu hwt hdt hdu
+    (update_is_merge a b ig hwu hnu)
+  exact ⟨m', h1, h3⟩
+
+/-- non-vacuity of `update_abstraction` / `update_heap_is_merge`: an operand whose two branches are the
+SAME dict object (node 0 is shared) is a representation (`Own false`) -/
+example : Own false [[("b", .val (.cell (.int 1)))], [("x", .ptr 0), ("y", .ptr 0)]]
+    (.dict [("x", .dict [("b", .cell (.int 1))]), ("y", .dict [("b", .cell (.int 1))])]) (.ptr 1) [1, 0, 0] := by
+  simp only [Own, OwnKVs]
+  refine ⟨1, _, [0, 0], rfl, rfl, rfl, by simp, .ptr 0, _, [0], [0], rfl, rfl, ?_, ?_, by simp⟩
+  · exact ⟨0, _, [], rfl, rfl, rfl, by simp, _, _, [], [], rfl, rfl, ⟨rfl, rfl⟩, ⟨rfl, rfl⟩, by simp⟩
+  · refine ⟨.ptr 0, _, [0], [], rfl, rfl, ?_, ⟨rfl, rfl⟩, by simp⟩
+    exact ⟨0, _, [], rfl, rfl, rfl, by simp, _, _, [], [], rfl, rfl, ⟨rfl, rfl⟩, ⟨rfl, rfl⟩, by simp⟩
+
+/-- end to end, for ALL pure trees (this also shows the hypotheses above are satisfiable for every pair
+of trees): lay `t = dict a` (distinct keys) and `u = dict b` (distinct keys, no empty branch) out in
+any heap, run the heap `tree_update` with enough fuel: it returns a new node that reads back as the
+recursive merge, and `t` and `u` read back unchanged. -/
+theorem update_on_heap (m0 : Mem) (a b : List (String × Val)) (ig : List Val)
+    (hwt : wf (.dict a) = true) (hwu : wf (.dict b) = true) (hnu : noEmpty (.dict b) = true)
+    (f : Nat) (hft : depth (.dict a) ≤ f) (hfu : depth (.dict b) ≤ f) :
+    ∃ t u m', (allocTree m0 (.dict a)).2 = .ptr t ∧
+      (allocTree (allocTree m0 (.dict a)).1 (.dict b)).2 = .ptr u ∧
+      treeUpdateH f (allocTree (allocTree m0 (.dict a)).1 (.dict b)).1 t u ig =
+        .ok (m', (allocTree (allocTree m0 (.dict a)).1 (.dict b)).1.heap.length) ∧
+      (∀ g, depth (merge ig (.dict a) (.dict b)) ≤ g →
+        readH m'.heap g (.ptr (allocTree (allocTree m0 (.dict a)).1 (.dict b)).1.heap.length) =
+          some (merge ig (.dict a) (.dict b))) ∧
+      readH m'.heap f (.ptr t) = some (.dict a) ∧ readH m'.heap f (.ptr u) = some (.dict b) := by
+  obtain ⟨fp1, h1, _, _, _⟩ := allocTree_Own (.dict a) m0
+  obtain ⟨fp2, h2, _, _, hsame2⟩ := allocTree_Own (.dict b) (allocTree m0 (.dict a)).1
+  have hlt1 := Own.lt _ _ fp1 h1
+  have h1' := Own.congr _ _ fp1 h1 fun x hx => hsame2 x (hlt1 x hx)
+  generalize (allocTree (allocTree m0 (.dict a)).1 (.dict b)).1 = m2 at *
+  cases hr1 : (allocTree m0 (.dict a)).2 with
+  | val w => rw [hr1] at h1'; exact absurd rfl ((Own_val h1').2.2 a)
+  | ptr t =>
+    cases hr2 : (allocTree (allocTree m0 (.dict a)).1 (.dict b)).2 with
+    | val w => rw [hr2] at h2; exact absurd rfl ((Own_val h2).2.2 b)
+    | ptr u =>
+      rw [hr1] at h1'
+      rw [hr2] at h2
+      obtain ⟨m', hrun, hread⟩ := update_heap_is_merge f m2 t u ig a b fp1 fp2
+        (Own.weaken _ _ _ h1') (Own.weaken _ _ _ h2) hwt hwu hnu hft hfu
+      exact ⟨t, u, m', rfl, rfl, hrun, hread,
+        update_operands_unchanged f m2 t u ig m' _ hrun f _ _ (readH_of_Own _ _ fp1 f h1' hft),
+        update_operands_unchanged f m2 t u ig m' _ hrun f _ _ (readH_of_Own _ _ fp2 f h2 hfu)⟩
+
+/-- F7: the code before the fix (`copy(tree)`, one level) violates the frame property:
+`t = {'a': {'b': 1}}; tree_update(t, {'a': {'c': 2}})` writes `c` into the node of `t['a']` -/
+private def mF7 : Mem :=
+  ⟨[[("b", .val (.cell (.int 1)))], [("a", .ptr 0)], [("c", .val (.cell (.int 2)))], [("a", .ptr 2)]], []⟩
+
+theorem update_frame_shallow_false :
+    ∃ m', treeUpdateShallow 3 mF7 1 3 [] = .ok (m', 4) ∧ m'.log = [0] ∧
+      m'.heap[0]? = some [("b", .val (.cell (.int 1))), ("c", .val (.cell (.int 2)))] ∧
+      readH mF7.heap 3 (.ptr 1) = some (.dict [("a", .dict [("b", .cell (.int 1))])]) ∧
+      readH m'.heap 3 (.ptr 1) = some (.dict [("a", .dict [("b", .cell (.int 1)), ("c", .cell (.int 2))])]) :=
+  ⟨_, rfl, rfl, rfl, rfl, rfl⟩
+
+/-- the repaired code on the same heap: succeeds, writes only the new nodes 4 and 5 -/
+example : ∃ m', treeUpdateH 3 mF7 1 3 [] = .ok (m', 4) ∧ m'.log = [5, 4] ∧
+    readH m'.heap 3 (.ptr 1) = some (.dict [("a", .dict [("b", .cell (.int 1))])]) ∧
+    readH m'.heap 3 (.ptr 4) = some (.dict [("a", .dict [("b", .cell (.int 1)), ("c", .cell (.int 2))])]) :=
+  ⟨_, rfl, rfl, rfl, rfl⟩
 
 /-! ### non-vacuity / evaluation of the full statement on concrete trees -/
 
@@ -130,6 +272,7 @@ private def t0 : Val := .dict [("a", .dict [("b", i 1), ("z", .dict [("q", i 5)]
 private def u0 : Val := .dict [("a", .dict [("c", i 2), ("z", i 7)]), ("c", .dict [("n", .cell .none)])]
 
 example : wf t0 = true ∧ noEmpty t0 = true := by decide
+example : wf u0 = true ∧ noEmpty u0 = true := by decide
 example : (["a", "z", "q"], i 5) ∈ items t0 := by decide
 example : ((itemsToTree (items t0) [] []).toOption.map Val.dict) = some t0 := by decide
 -- overlapping branches, leaf over branch, branch over leaf; update = merge; update t t = t
